@@ -18,6 +18,8 @@ import billiard.common as BC
 import billiard.process as BP
 import billiard.popen_fork as PF
 import billiard.dummy as BD
+import billiard.forkserver as FS
+import billiard.popen_forkserver as PFS
 from billiard import context as _bctx
 from billiard import reduction as _red
 import multiprocessing.util as _mpu
@@ -91,7 +93,10 @@ class SimPopen(PF.Popen):
 
         def main():
             obj = pickle.loads(data)
-            code = child_bootstrap(obj)
+            if k.cfg.get('real_bootstrap'):
+                code = obj._bootstrap()         # the repository's own exit-code mapping (S-PROC)
+            else:
+                code = child_bootstrap(obj)
             k.exit_now(code)
         child = k.create_process(kind, main, inherit_fds=simfds)
         child.sig[int(_signal.SIGINT)] = _default_int_handler
@@ -129,6 +134,52 @@ class SimProcess(BP.BaseProcess):
 
 class PoolContext(SimContext):
     Process = SimProcess
+
+
+class SimFSPopen(SimPopen):
+    """forkserver flavour: the real popen_forkserver.Popen.poll() reads the child's exit code from the
+    status pipe (written by the child itself as forkserver._serve_one does); EOF without a code = 255."""
+    method = 'sim-forkserver'
+    poll = PFS.Popen.poll
+
+    def _launch(self, process_obj):
+        k = state.K
+        buf = io.BytesIO()
+        _bctx.set_spawning_popen(self)
+        try:
+            _red.dump(process_obj, buf)
+        finally:
+            _bctx.set_spawning_popen(None)
+        data = buf.getvalue()
+        parent_r, child_w = k.pipe()
+        me = k.cur().proc
+        simfds = [fd for fd in self._fds if fd in me.fds] + [child_w]
+
+        def main():
+            FS.write_unsigned(child_w, k.getpid())
+            obj = pickle.loads(data)
+            code = obj._bootstrap() if k.cfg.get('real_bootstrap') else child_bootstrap(obj)
+            FS.write_unsigned(child_w, code)
+            k.exit_now(code)
+        child = k.create_process('W', main, inherit_fds=simfds)
+        child.sig[int(_signal.SIGINT)] = _default_int_handler
+        child.sig[int(_signal.SIGPIPE)] = _signal.SIG_IGN
+        self.sentinel = parent_r
+        k.close(child_w)
+        hook = k.cfg.get('_on_child')
+        if hook is not None:
+            hook(child, process_obj)
+        self.pid = FS.read_unsigned(self.sentinel)
+
+
+class SimFSProcess(SimProcess):
+    @staticmethod
+    def _Popen(process_obj):
+        return SimFSPopen(process_obj)
+
+
+class FSContext(SimContext):
+    Process = SimFSProcess
 
 
 # ---------------------------------------------------------------------- DummyProcess -> actors
@@ -249,6 +300,8 @@ def install_pool():
     _set(BC, 'monotonic', seams.monotonic)
     _set(PF, 'os', seams.os_shim)
     _set(BP, 'os', seams.os_shim)
+    _set(FS, 'os', seams.os_shim)
+    _set(PFS, 'os', seams.os_shim)
 
 
 def setup_kernel(k):
@@ -257,8 +310,11 @@ def setup_kernel(k):
     k.add_per_proc_global(BP, '_current_process', lambda p: BP._current_process)
     k.add_per_proc_global(BP, '_children', lambda p: set())
     k.add_per_proc_global(_mpu, '_finalizer_registry', lambda p: {})
-    # fresh root-side state for this run
     import itertools
+    import billiard.util as BU
+    k.add_per_proc_global(BU, '_finalizer_registry', lambda p: {})
+    k.add_per_proc_global(BP, '_process_counter', lambda p: itertools.count(1))
+    # fresh root-side state for this run
     P.job_counter = itertools.count()
     BP._children = set()
     BP._process_counter = itertools.count(1)
